@@ -513,6 +513,21 @@ func (g *sGraph) wildcards(n *sNode) []string {
 
 // ---- feature predicates (classes of known findings)
 
+// hasEmptyOperand: an operand of an intersection or exclusion that consists of no edge at all (a direct assignment
+// without type restrictions): the graph has no trace of it, the strategies count edges
+func (g *sGraph) hasEmptyOperand() bool {
+	for _, n := range g.order {
+		if n.kind == sOp && n.op != UnionOperator {
+			for _, grp := range n.groups {
+				if len(grp) == 0 {
+					return true
+				}
+			}
+		}
+	}
+	return false
+}
+
 func (g *sGraph) hasMultiEdgeOperand() bool {
 	for _, n := range g.order {
 		if n.kind == sOp && n.op != UnionOperator {
